@@ -38,6 +38,9 @@
 #include <stdio.h>
 #include <stdlib.h>
 #include <string.h>
+#include <sys/mman.h>
+#include <signal.h>
+#include <unistd.h>
 #include <stdint.h>
 #include <intel-ipsec-mb.h>
 #include "imbh.h"
@@ -278,17 +281,55 @@ emit(krun *r, const char *op, uint64_t len, int status, int is_chacha, int final
         printf("\n");
 }
 
+/* Every caller buffer (whole message, each segment's source and destination, IV, AAD) ends flush against an
+ * inaccessible page: a read or write past the end of a segment faults inside the library (reported as
+ * "CRASH id=.. var=.. call=.." by the signal handler) instead of going unnoticed. */
+#define GB_MAX 512
+static struct {
+        uint8_t *p;
+        void *base;
+        size_t len;
+} gb_tab[GB_MAX];
+
 static uint8_t *
 dupbuf(const uint8_t *p, size_t n)
 {
-        uint8_t *q = malloc(n + 32); /* never NULL, also for n = 0 */
+        const size_t pg = 4096;
+        const size_t body = ((n + pg - 1) / pg) * pg;
+        uint8_t *base = mmap(NULL, body + pg, PROT_READ | PROT_WRITE, MAP_PRIVATE | MAP_ANONYMOUS, -1, 0);
 
-        if (!q)
+        if (base == MAP_FAILED)
                 abort();
-        memset(q, 0xEE, n + 32);
+        memset(base, 0xEE, body);
+        if (mprotect(base + body, pg, PROT_NONE) != 0)
+                abort();
+        uint8_t *q = base + body - n; /* n = 0: points at the guard page, never dereferenced */
+
         if (n && p)
                 memcpy(q, p, n);
-        return q;
+        for (int i = 0; i < GB_MAX; i++)
+                if (gb_tab[i].p == NULL && gb_tab[i].base == NULL) {
+                        gb_tab[i].p = q;
+                        gb_tab[i].base = base;
+                        gb_tab[i].len = body + pg;
+                        return q;
+                }
+        abort();
+}
+
+static void
+gbfree(void *q)
+{
+        if (q == NULL)
+                return;
+        for (int i = 0; i < GB_MAX; i++)
+                if (gb_tab[i].base != NULL && gb_tab[i].p == (uint8_t *) q) {
+                        munmap(gb_tab[i].base, gb_tab[i].len);
+                        gb_tab[i].p = NULL;
+                        gb_tab[i].base = NULL;
+                        return;
+                }
+        abort();
 }
 
 static IMB_JOB *
@@ -682,6 +723,24 @@ run_gmac(krun *r)
         return -1;
 }
 
+static krun *volatile g_cur;
+
+static void
+on_fault(int sig, siginfo_t *si, void *uc)
+{
+        char b[256];
+        krun *r = g_cur;
+
+        (void) uc;
+        const int n = snprintf(b, sizeof(b), "\nCRASH id=%ld var=%s call=%d sig=%d addr=%p\n", r ? r->c->id : -1L,
+                               r ? r->var : "?", r ? r->call : -1, sig, si ? si->si_addr : NULL);
+
+        fflush(stdout);
+        if (n > 0 && write(1, b, (size_t) n) < 0)
+                _exit(4);
+        _exit(3);
+}
+
 static void
 run_case(const kcase *c, const imbh_variant *v)
 {
@@ -693,6 +752,7 @@ run_case(const kcase *c, const imbh_variant *v)
         r->c = c;
         r->var = v->name;
         r->mgr = v->mgr;
+        g_cur = r;
         memset(r->tag, 0xCC, sizeof(r->tag));
         r->iv = c->iv.n ? dupbuf(c->iv.p, c->iv.n) : NULL;
         r->aad = c->aad.n ? dupbuf(c->aad.p, c->aad.n) : NULL;
@@ -729,13 +789,14 @@ run_case(const kcase *c, const imbh_variant *v)
                 printf("E id=%ld var=%s unusable case\n", c->id, v->name);
         fflush(stdout);
         for (int i = 0; i < c->nseg; i++) {
-                free(r->src[i]);
-                free(r->dst[i]);
+                gbfree(r->src[i]);
+                gbfree(r->dst[i]);
         }
-        free(r->whole_src);
-        free(r->whole_dst);
-        free(r->iv);
-        free(r->aad);
+        gbfree(r->whole_src);
+        gbfree(r->whole_dst);
+        gbfree(r->iv);
+        gbfree(r->aad);
+        g_cur = NULL;
         free(r);
 }
 
@@ -745,6 +806,13 @@ main(int argc, char **argv)
         static imbh_variant vars[IMBH_MAX_VARIANTS];
         const char *only = NULL, *path = NULL;
         int list = 0;
+        struct sigaction sa;
+
+        memset(&sa, 0, sizeof(sa));
+        sa.sa_sigaction = on_fault;
+        sa.sa_flags = SA_SIGINFO;
+        sigaction(SIGSEGV, &sa, NULL);
+        sigaction(SIGBUS, &sa, NULL);
 
         for (int i = 1; i < argc; i++) {
                 if (!strcmp(argv[i], "--variant") && i + 1 < argc)
